@@ -170,6 +170,21 @@ func c03Block(tag string, dataLen int) *nom.AccountBlock {
 	b.BasePlasma = verifNondetU64(tag + ".BasePlasma")
 	b.TotalPlasma = verifNondetU64(tag + ".TotalPlasma")
 	b.ChangesHash = c03Hash(tag + ".ChangesHash")
+	if verifParam("descendants", 0) > 0 && verifNondetBool(tag+".has a descendant block") {
+		d := &nom.AccountBlock{}
+		d.Version = verifNondetU64(tag + ".d.Version")
+		d.ChainIdentifier = verifNondetU64(tag + ".d.ChainIdentifier")
+		d.BlockType = verifNondetU64(tag + ".d.BlockType")
+		d.Hash = c03Hash(tag + ".d.Hash")
+		d.PreviousHash = c03Hash(tag + ".d.PreviousHash")
+		d.Height = verifNondetU64(tag + ".d.Height")
+		d.MomentumAcknowledged = types.HashHeight{Hash: c03Hash(tag + ".d.MA.Hash"), Height: verifNondetU64(tag + ".d.MA.Height")}
+		d.Address = c03Addr(tag + ".d.Address")
+		d.ToAddress = c03Addr(tag + ".d.ToAddress")
+		d.Amount = new(big.Int).SetBytes(verifNondetBytes(tag+".d.Amount", 32))
+		copy(d.TokenStandard[:], verifNondetBytes(tag+".d.ZTS", 10))
+		b.DescendantBlocks = []*nom.AccountBlock{d}
+	}
 	return b
 }
 
